@@ -42,6 +42,7 @@ type input struct {
 	MM     []kvs       `json:"mm,omitempty"`
 	T      string      `json:"t,omitempty"`
 	E      int         `json:"e,omitempty"` // entry point of the float/complex direct oracle
+	B      []byte      `json:"b,omitempty"` // arbitrary bytes (base64 in JSON)
 }
 
 var sTypes = []reflect.Type{reflect.TypeOf(int8(0)), reflect.TypeOf(int16(0)), reflect.TypeOf(int32(0)),
@@ -344,6 +345,19 @@ func run(raw json.RawMessage) driver.Result {
 			Coq:        fmt.Sprintf("QuoteRT %s %s %s %s", textgen.Printable(in.S), coqfmt.Str(in.S), coqfmt.Str(q), out),
 			Kind:       "quote-roundtrip",
 			Nontrivial: textgen.Special(in.S),
+		}
+	case "qb":
+		s := string(in.B)
+		q := strconv.Quote(s)
+		out := guard(func() string { u, err := strconv.Unquote(q); return outcome(textgen.StrBytes(u), err) })
+		parts := make([]string, len(in.B))
+		for i, x := range in.B {
+			parts[i] = strconv.Itoa(int(x))
+		}
+		return driver.Result{
+			Coq:        fmt.Sprintf("QuoteRTB %s %s %s %s", textgen.Printable(s), coqfmt.List(parts), coqfmt.Str(q), out),
+			Kind:       "quote-roundtrip-bytes",
+			Nontrivial: !utf8.ValidString(s),
 		}
 	case "uq":
 		out := guard(func() string { u, err := strconv.Unquote(in.S); return outcome(textgen.StrBytes(u), err) })
@@ -752,6 +766,14 @@ func gen(r *coqfmt.Rng, n int, tier string) []json.RawMessage {
 				}
 			}
 			add(input{K: "isrt", Signed: signed, W: w, Vals: vals})
+		case x < 47:
+			b := []byte(tg.String())
+			for k := r.Intn(4); k > 0; k-- {
+				pos := r.Intn(len(b) + 1)
+				ins := coqfmt.Pick(r, [][]byte{{0xff}, {0x80}, {0xc3}, {0xc0, 0x80}, {0xed, 0xa0, 0x80}, {0xf4, 0x90, 0x80, 0x80}, {0xe2, 0x82}, {0xbf}})
+				b = append(b[:pos], append(append([]byte{}, ins...), b[pos:]...)...)
+			}
+			add(input{K: "qb", B: b})
 		case x < 50:
 			add(input{K: "q", S: tg.String()})
 		case x < 56:
